@@ -150,10 +150,12 @@ Definition step_main (s : st) : option (st * list ev) :=
   let k := nq s in
   match mainpc s with
   | MSpawn i =>
-      if Nat.ltb i k
-      then Some (set_worker (set_main s (if Nat.eqb (S i) k then MStopLock (negb (race s)) 0 else MSpawn (S i))) i (WScan 0),
-                 [ESpawn i])
-      else None
+      match nth_error (workers s) i with
+      | Some WNotStarted =>
+          Some (set_worker (set_main s (if Nat.eqb (S i) k then MStopLock (negb (race s)) 0 else MSpawn (S i))) i (WScan 0),
+                [ESpawn i])
+      | _ => None
+      end
   | MStopLock d q =>
       if q_free s q && (negb d || all_prods_done s) then
         let x := getq s q in
